@@ -306,7 +306,7 @@ func fileValid(path string) (exists bool, valid bool) {
 func (bkmEngine) execute(sc *Scenario) *Outcome {
 	out := &Outcome{Index: sc.Index}
 	bc := sc.Bkm
-	root, err := os.MkdirTemp(scratchBase(), "verif-bkm-")
+	root, err := mkScratch("bkm")
 	if err != nil {
 		out.Error = err.Error()
 		return out
@@ -339,7 +339,11 @@ func (bkmEngine) execute(sc *Scenario) *Outcome {
 			if content == "@DAMAGE" {
 				cur, _ := os.ReadFile(db)
 				r := newRng(sc.Seed, "bkmrot", fmt.Sprint(sc.Index), fmt.Sprint(i))
-				content = damage(r, string(cur), damageKinds[r.Intn(len(damageKinds))])
+				// damage is applied with the scratch root masked, so that it never depends on
+				// the name of the scratch directory
+				mask := strings.Repeat("\x01", len(root))
+				content = damage(r, strings.ReplaceAll(string(cur), root, mask), damageKinds[r.Intn(len(damageKinds))])
+				content = strings.ReplaceAll(content, mask, root)
 			}
 			_ = os.MkdirAll(cfg, 0o755)
 			_ = os.WriteFile(db, []byte(content), 0o644)
@@ -381,13 +385,13 @@ func (bkmEngine) execute(sc *Scenario) *Outcome {
 		res := runProc(&ProcSpec{Argv: argv, Tape: op.Tape, MapTape: op.MapTape, MapOrder: true, Plan: op.Plan, Base: clock, Root: root, Stdin: op.Stdin, Cpus: cpus, Env: env})
 		out.Procs++
 		clock = clock.Add(time.Minute)
-		out.Log = append(out.Log, fmt.Sprintf("op %d %v", i+1, argv))
+		out.Log = append(out.Log, fmt.Sprintf("op %d %v", i+1, op.argv("$ROOT")))
 		out.Log = append(out.Log, res.logLines()...)
 		for k, v := range res.Fired {
 			out.stat("fired_"+k, v)
 		}
 		post, postClass, rawAfter := readDB(db)
-		out.Log = append(out.Log, "db "+fnv(rawAfter))
+		out.Log = append(out.Log, "db "+fnv(normRoot(rawAfter, root)))
 		faulted := res.Killed || res.Fired["write_error"] > 0 || res.Fired["read_error"] > 0 || res.Fired["torn_write"] > 0
 		outcome := "ok"
 		if res.Failed {
